@@ -243,10 +243,21 @@ def b_hasattr(E, st, args, kw):
             if name in h.fields:
                 return val(st, True)
             if h.cls is not None:
-                if h.cls.find_method(name) is not None or h.cls.find_attr_node(name)[1] is not None:
+                fm = h.cls.find_method(name)
+                if (fm is not None and fm.kind == 'property') or \
+                        (fm is None and h.cls.find_attr_node(name)[1] is None and h.cls.find_method('__getattr__') is not None):
+                    # hasattr() runs the property / __getattr__: True when it returns, False when it raises AttributeError,
+                    # any other exception propagates (CPython >= 3.2)
+                    sink = []
+                    outs = [('val', s1, True) for s1, _x in E.getattr(v, name, st, sink)]
+                    for o in sink:
+                        if o[0] == 'raise' and E.exc_matches(o[2], PyClassV(AttributeError), o[1]):
+                            outs.append(('val', o[1], False))
+                        else:
+                            outs.append(o)
+                    return outs
+                if fm is not None or h.cls.find_attr_node(name)[1] is not None:
                     return val(st, True)
-                if h.cls.find_method('__getattr__') is not None:
-                    raise Unsupported('hasattr through __getattr__')
                 return val(st, name in _object_extra_attrs(E, st, v, h))
             return val(st, False)
         py = {'list': list, 'dict': dict, 'bytearray': bytearray}[h.kind]
@@ -701,10 +712,38 @@ def b_zip(E, st, args, kw):
     return val(st, tuple(zip(*[E.iter_concrete(a, st) for a in args])))
 
 
+class LazyMap(SOpaque):
+    """the iterator returned by map(f, it...): nothing is called until it is consumed (Engine.iter_concrete)"""
+    __slots__ = ('f', 'its')
+
+    def __init__(self, t, f, its):
+        SOpaque.__init__(self, t, 'lazy_map')
+        self.f, self.its = f, its
+
+
 def b_map(E, st, args, kw):
-    # lazily evaluated in CPython: building the iterator calls nothing.  The result is an opaque object; consuming it
-    # (iteration, list(), ...) is outside the subset and reported as such.
-    return val(st, SOpaque(E.fresh(ANY, 'lazy_map'), 'lazy_map'))
+    # lazily evaluated in CPython: building the iterator calls nothing.  The result is an opaque object; consuming it by
+    # iteration over concrete-length iterables is supported when every call has exactly one, normal, outcome (consume_map)
+    if kw or len(args) < 2:
+        return val(st, SOpaque(E.fresh(ANY, 'lazy_map'), 'lazy_map'))
+    return val(st, LazyMap(E.fresh(ANY, 'lazy_map'), args[0], list(args[1:])))
+
+
+def consume_map(E, st, m):
+    """all items of a LazyMap, computed in order in state `st`.  Exact when every call f(x...) has a single normal outcome in
+    the same state (no fork, no exception: then evaluating an element CPython would have left untouched, e.g. behind a shorter
+    zip() partner, is unobservable apart from fresh allocations); anything else is outside the subset."""
+    if id(m) in st.ghost.get('maps_done', frozenset()):
+        return []               # an iterator is exhausted after its first traversal (recorded per state)
+    cols = [E.iter_concrete(it, st) for it in m.its]
+    out = []
+    for xs in zip(*cols):
+        outs = E.call(m.f, list(xs), {}, st)
+        if len(outs) != 1 or outs[0][0] != 'val' or outs[0][1] is not st:
+            raise Unsupported('map(): a call of the mapped function forks or raises')
+        out.append(outs[0][2])
+    st.ghost['maps_done'] = st.ghost.get('maps_done', frozenset()) | {id(m)}
+    return out
 
 
 def b_filter(E, st, args, kw):
@@ -985,6 +1024,15 @@ def value_attr(E, st, base, attr):
                 return val(st, tuple(base.d.items()))
             raise Unsupported('constant dict .%s' % attr)
         return BuiltinV('dict.' + attr, fdm)
+    if isinstance(base, frozenset) and attr in ('issubset', 'issuperset', 'isdisjoint', 'union', 'intersection', 'difference',
+                                                'symmetric_difference', 'copy'):
+        # concrete sets of constants (keyword-name checks): CPython decides; symbolic members are outside the subset
+        def fsm(E, st, a, k, base=base, attr=attr):
+            a2 = [frozenset(x) if isinstance(x, (tuple, list)) and _conc(tuple(x)) else x for x in a]
+            if k or not all(isinstance(x, frozenset) for x in a2):
+                raise Unsupported('frozenset.%s with a non-constant argument' % attr)
+            return val(st, getattr(base, attr)(*a2))
+        return BuiltinV('frozenset.' + attr, fsm)
     if isinstance(base, tuple):
         if attr == 'index':
             def tindex(E, st, a, k):
